@@ -361,6 +361,13 @@ pub fn exec_op(ctx: &Arc<Ctx>, op: &Op, caller: usize, nested: bool, local: &mut
             return;
         }
         Op::ChainClose(_, _) => { return; }
+        Op::PanicDrop(q) => {
+            // Desync::drop on a panicking thread takes the sync_no_panic path: it must still wait for whatever runs on the queue
+            desync::verif::log("api", "DROPOBJ", *q, String::new());
+            let _owned = ctx.objs[*q].lock().unwrap().take();
+            if _owned.is_some() { ctx.panics_started.fetch_add(1, SeqCst); panic!("INTENDED panic of caller {} while it owns object {}", caller, q); }
+            return;
+        }
         Op::Open(g) => { let gt = &ctx.gates[*g]; *gt.open.lock().unwrap() = true; gt.cv.notify_all(); return; }
         Op::DropObj(q) => {
             desync::verif::log("api", "DROPOBJ", *q, String::new()); let o = ctx.objs[*q].lock().unwrap().take(); drop(o);
@@ -769,7 +776,7 @@ pub fn pipe_oracles(ctx: &Arc<Ctx>) {
     for c in ctx.prog.callers.iter() { for o in c { match o {
         Op::PipeIn(q, k) => { kind.insert(*k, ('I', *q)); }
         Op::Pipe(q, k, _) => { kind.insert(*k, ('J', *q)); }
-        Op::DropObj(q) => { dropped_obj.insert(*q); }
+        Op::DropObj(q) | Op::PanicDrop(q) => { dropped_obj.insert(*q); }
         Op::DropStream | Op::DropStreamInJob(_) => { stream_dropped = true; }
         Op::Consume(0) => { for (k, _) in kind.iter() { consumed_all.insert(*k); } }
         _ => {}
